@@ -77,7 +77,7 @@ DownOf(d, x, late) == IF x > N THEN <<>>
 S0 == [now |-> 0,
        dev |-> [d \in Devs |-> Dev0(d)],
        down |-> [d \in Devs |-> DownOf(d, 1, FALSE) \o DownOf(d, 1, TRUE)],
-       ups |-> [d \in Devs |-> cfg.devs[d].ups],
+       ups |-> [d \in Devs |-> IF Kind(d) = "ginput" THEN cfg.devs[d].vups ELSE cfg.devs[d].ups],
        part |-> <<>>, q |-> {}, pq |-> {}, nextEid |-> 1,
        pool |-> [r \in Resources |-> [used |-> 0, cap |-> cfg.pools[r]]],
        waitq |-> <<>>, lost |-> <<>>,
@@ -228,6 +228,10 @@ GiveRes(S, req) ==
 NeedsRes(d) == Kind(d) = "processor" /\ DOMAIN cfg.devs[d].req # {}
 ReleaseHeld(S, d) == IF S.dev[d].held THEN GiveRes([S EXCEPT !.dev[d].held = FALSE], cfg.devs[d].req) ELSE S
 
+GInput(P) == cfg.devs[P].gin          \* device id of the group's input / output pseudo-device
+GOutput(P) == cfg.devs[P].gout
+PassThrough == {"gate", "junction", "gpath", "ginput", "goutput"}
+
 RECURSIVE NotifyUp(_, _, _), SpaceAvail(_, _, _)
 (* notify_upstream_of_available_space *)
 NotifyUp(S, d, depth) ==
@@ -242,6 +246,7 @@ NotifyUp(S, d, depth) ==
 SpaceAvail(S, u, depth) ==
     IF Kind(u) \in Holding
     THEN (IF Operational(S, u) /\ S.dev[u].wds THEN SchedulePass(S, u) ELSE S)
+    ELSE IF Kind(u) = "gpath" THEN NotifyUp(S, GOutput(u), depth)     \* the group's output devices may retry
     ELSE (IF Operational(S, u) THEN NotifyUp(S, u, depth) ELSE S)
 
 (* _schedule_finish_cycle / _finish_cycle / _try_move_part_to_output and give_part are mutually recursive *)
@@ -346,11 +351,30 @@ Accept(S, d, p) ==
                                              CycleInEffect(S4, d, p), S4.dev[d].off>>)] IN
     IF S5.dev[d].out = 0 THEN TryMoveToOutput(S5, d) ELSE S5
 
+(* Shared-machine groups: a group path P (a device of the line) pushes itself on the part's path   *)
+(* stack and hands the part to the group's input pseudo-device; the output pseudo-device hands a   *)
+(* part leaving the group to the downstream devices of the path on top of the stack and pops it.   *)
+
 (* give_part: [ok, S].  A refusal by a processor may still change the state (waiting for resources). *)
 Give(S, d, p, depth) ==
     IF depth > 3 * N THEN [ok |-> FALSE, S |-> S]
     ELSE
-    CASE Kind(d) \in {"gate", "junction"} ->
+    CASE Kind(d) = "gpath" ->
+            IF S.dev[d].blocked THEN [ok |-> FALSE, S |-> S]
+            ELSE LET S1 == AddHist([S EXCEPT !.part[p].gst = Append(@, d)], p, d)
+                     r == Give(S1, GInput(d), p, depth + 1) IN
+                 IF r.ok THEN r
+                 ELSE [ok |-> FALSE, S |-> DropLastHist([r.S EXCEPT !.part[p].gst = SubSeq(@, 1, Len(@) - 1)], p)]
+      [] Kind(d) = "ginput" ->
+            GiveFirst(S, SortedDown(S, d), 1, p, depth + 1)
+      [] Kind(d) = "goutput" ->
+            \* the part leaves the group (pop) before it is passed on: the next device may be the output of an
+            \* enclosing group; a refusal puts the path back
+            LET P == S.part[p].gst[Len(S.part[p].gst)]
+                S1 == [S EXCEPT !.part[p].gst = SubSeq(@, 1, Len(@) - 1)]
+                r == GiveFirst(S1, SortedDown(S1, P), 1, p, depth + 1) IN
+            IF r.ok THEN r ELSE [ok |-> FALSE, S |-> [r.S EXCEPT !.part[p].gst = Append(@, P)]]
+      [] Kind(d) \in {"gate", "junction"} ->
             IF ~Pred(S, d, p) \/ S.dev[d].blocked THEN [ok |-> FALSE, S |-> S]
             ELSE LET r == GiveFirst(AddHist(S, p, d), SortedDown(AddHist(S, p, d), d), 1, p, depth + 1) IN
                  IF r.ok THEN r ELSE [ok |-> FALSE, S |-> DropLastHist(r.S, p)]
